@@ -4,7 +4,7 @@ from __future__ import annotations
 
 from ..core import Check
 from . import _limits as L
-from .c07 import SYSTEMATIC
+from .c07 import INHERIT, SYSTEMATIC
 
 BIG = 10**9
 DIMS = ("loop", "out", "ns", "depth", "nest")
@@ -22,17 +22,24 @@ EXTRA = [
 
 
 def gen_nests(ck: Check):
+    """(label, number of templates in the chain, nest of the chain's base template)."""
     for n in EXTRA + SYSTEMATIC:
-        yield "systematic", L.normalize(n)
-    for _ in range(70 if ck.quick else 800):
-        yield "random", L.gen_tree(ck.rng, maxdepth=3, lengths=(0, 1, 2, 3), width=3)
+        yield "systematic", 1, L.normalize(n)
+    for levels, n in INHERIT:
+        yield "inherit", levels, L.normalize(n)
+    for _ in range(45 if ck.quick else 500):
+        yield "random", 1, L.gen_tree(ck.rng, maxdepth=3, lengths=(0, 1, 2, 3), width=3)
+    for i in range(40 if ck.quick else 500):
+        levels = (1, 2, 2, 3, 3)[i % 5]
+        yield f"chain{levels}", levels, L.gen_tree(ck.rng, maxdepth=3, lengths=(0, 1, 2, 3), width=3,
+                                                    level=(levels - 1 if levels > 1 else None), blocks=2.0)
 
 
 def sweeps_for(ck, nest, printed, base):
     """{dimension: ascending values}, from 0 to beyond the resource the unlimited render uses."""
     rng = ck.rng
     out = {}
-    mp = L.max_loop_product(nest)
+    mp = L.max_loop_product(L.expand(nest))
     out["loop"] = L.sweep_values(max(2, 2 * mp), 16, rng)
     S = L.utf8(base[1]) if base[0] == "out" else 12
     out["out"] = sorted(set(L.sweep_values(max(2, 2 * S), 14, rng)) | {v for v in (S - 1, S, S + 1) if v >= 0})
@@ -66,7 +73,8 @@ def judge(base, s, a):
 
 def run(ck: Check) -> None:
     ck.rule = (
-        "25 systematic nests + seeded random trees (as C07) over all twelve constructs; every nest is rendered (sync and async) without "
+        "25 systematic nests + seeded random trees (as C07) over all twelve constructs, and 8 systematic + seeded random CHAINS of 1..3 templates "
+        "(extends, block tags with up to 3 definitions, {{ block.super }}, printed from the model's nests); every nest is rendered (sync and async) without "
         "limits and under a sweep of each of the five limits alone - loop_iteration_limit 0..2*largest loop product, output_stream_limit "
         "0..2*unlimited bytes, local_namespace_limit 0, t-1, t for every observed namespace size t, 2*max, context_depth_limit 0..14, "
         "block_nesting_limit 0..5 - and under 6 random ordered pairs lim <= lim' of joint configurations; oracle: equal to the unlimited "
@@ -82,7 +90,7 @@ def run(ck: Check) -> None:
     ]
     ck.assumptions = [
         "Mode.STRICT (in lax/warn mode C03 forbids any error, so the two properties are only jointly satisfiable under STRICT)",
-        "the liquid tag's depth carry, extends/block, cycle/increment and break/continue are outside the model",
+        "the liquid tag's depth carry, cycle/increment and break/continue are outside the model; block names distinct, no required blocks, extends first",
     ]
     ck.proof()
 
@@ -91,10 +99,10 @@ def run(ck: Check) -> None:
 
     def report(sig, what, nest, printed, lim, s, extra):
         ck.violation("impl-violation", sig, f"{printed[0]!r} partials {printed[1]!r} limits {lim.as_dict()}: {what}",
-                     dict({"main": nest, "limits": lim.as_dict(), "template": printed[0], "partials": printed[1], "sync": s}, **extra))
+                     dict({"main": nest, "levels": levels, "limits": lim.as_dict(), "template": printed[0], "partials": printed[1], "sync": s}, **extra))
 
-    for label, nest in gen_nests(ck):
-        printed = L.to_source(nest)
+    for label, levels, nest in gen_nests(ck):
+        printed = L.to_source(nest, levels)
         base, bsizes = L.run_impl(nest, nolim, False, printed)
         ck.count(f"{label}.{'unlimited-fails' if base[0] == 'err' else 'unlimited-ok'}")
         sw.group(nest, printed)
@@ -159,8 +167,9 @@ def run(ck: Check) -> None:
         for lim0 in ck.rng.sample(seen, min(5, len(seen))):
             for mode in (("lax", "warn") if ck.rng.random() < 0.3 else ("lax",)):
                 lim = lim0.replace(mode=mode)
-                if lim.nest != L.DEFAULT_NEST:
-                    continue  # parser recovery after a nesting error in tolerant mode is outside the model
+                if lim.nest != L.DEFAULT_NEST or (levels > 1 and lim.depth == 4):
+                    continue  # parser recovery after a nesting error in tolerant mode is outside the model; so is an error that
+                    #           escapes from the extends tag itself (the child template's other tags are rendered then)
                 s, sizes = L.run_impl(nest, lim, False, printed)
                 a, _ = L.run_impl(nest, lim, True, printed)
                 strict = cache[lim0.key()]
@@ -179,8 +188,8 @@ def run(ck: Check) -> None:
     g = sw.groups[2]
     r = g[2][min(4, len(g[2]) - 1)]
     ck.sample({"template": g[1][0], "partials": g[1][1], "limits": r[0].as_dict(), "observed": r[2][:2]})
-    for nest, printed, lim, sizes, s in sw.mismatches(ck, "c08", chunk=10)[:3]:
-        model = ck.coq_eval(L.IMPORTS, [f"run_case ({L.g_case(lim, nest, sizes)})"])[0]
+    for nest, printed, lim, sizes, s, _ in sw.mismatches(ck, "c08", chunk=10)[:3]:
+        model = ck.coq_eval(L.IMPORTS, [f"run_case ({L.g_case(lim, L.expand(nest), sizes, printed[3])})"])[0]
         ck.violation("correspondence", "c08-correspondence",
                      f"model Limits.run_case and the implementation disagree on {printed[0]!r} partials {printed[1]!r} limits {lim.as_dict()}",
                      {"main": nest, "limits": lim.as_dict(), "template": printed[0], "partials": printed[1], "impl": s, "sizes": sizes,
@@ -196,7 +205,7 @@ def replay(data) -> int:
         return 1
     nest = case["main"]
     lim = L.Limits.from_dict(case["limits"])
-    printed = L.to_source(nest)
+    printed = L.to_source(nest, case.get("levels", 1))
     base, _ = L.run_impl(nest, L.Limits(), False, printed)
     s, _ = L.run_impl(nest, lim, False, printed)
     a, _ = L.run_impl(nest, lim, True, printed)
